@@ -285,8 +285,64 @@ func genConstPairs(t *rapid.T) Case {
 	return cs
 }
 
+// genTempChains: chains of dead temporaries of two widths (which stock the
+// streaming allocator's free lists), then a new wide value, and a return
+// statement whose expressions are an alias of the top bits of that value
+// added to a narrow value, a value of a third width, and the wide value
+// itself - all evaluated as unnamed temporaries of the return statement.
+func genTempChains(t *rapid.T) Case {
+	n := rapid.SampledFrom([]int{16, 24, 32, 48, 64, 64, 64, 100, 128}).Draw(t, "tcwide")
+	m := n / 2
+	if rapid.IntRange(0, 2).Draw(t, "tcodd") == 0 {
+		m = rapid.IntRange(3, n-1).Draw(t, "tcnarrow")
+	}
+	k := rapid.SampledFrom([]int{5, 8, 16, 16, 31}).Draw(t, "tcthird")
+	if k >= n {
+		k = n - 1
+	}
+	chain := func(v string, terms int) string {
+		var parts []string
+		for i := 1; i <= terms; i++ {
+			parts = append(parts, fmt.Sprintf("(%s + %d)", v, i))
+		}
+		for len(parts) > 1 {
+			var next []string
+			for i := 0; i+1 < len(parts); i += 2 {
+				next = append(next, "("+parts[i]+" ^ "+parts[i+1]+")")
+			}
+			if len(parts)%2 == 1 {
+				next = append(next, parts[len(parts)-1])
+			}
+			parts = next
+		}
+		return parts[0]
+	}
+	op := rapid.SampledFrom([]string{"*", "*", "+", "-"}).Draw(t, "tcop")
+	var sb strings.Builder
+	fmt.Fprintf(&sb, "package main\n\nfunc main(a, b uint%d) (uint%d, uint%d, uint%d) {\n", n, m, k, n)
+	fmt.Fprintf(&sb, "\tc := uint%d(b)\n", m)
+	fmt.Fprintf(&sb, "\tp := %s\n", chain("a", rapid.IntRange(2, 6).Draw(t, "tcp")))
+	fmt.Fprintf(&sb, "\tq := %s\n", chain("c", rapid.IntRange(2, 6).Draw(t, "tcq")))
+	fmt.Fprintf(&sb, "\tx := p %s b\n", op)
+	fmt.Fprintf(&sb, "\treturn uint%d(x>>%d) + q, uint%d(a) + 9, x + a\n}\n", m, n-m, k)
+	cs := Case{Src: sb.String(), Tmpl: "temp-chains", Seed: rapid.Uint64().Draw(t, "seed")}
+	digits := (n + 3) / 4
+	cs.X = []string{fixedWidthHex(t, n, digits, "a")}
+	cs.Y = []string{fixedWidthHex(t, n, digits, "b")}
+	return cs
+}
+
+// fixedWidthHex draws a value below 2^bits written with the given digits.
+func fixedWidthHex(t *rapid.T, bits, digits int, label string) string {
+	v, _ := new(big.Int).SetString(hexDigits(t, digits, label)[2:], 16)
+	v.And(v, new(big.Int).Sub(new(big.Int).Lsh(big.NewInt(1), uint(bits)), big.NewInt(1)))
+	return hexOf(v)
+}
+
 func genTemplate(t *rapid.T) Case {
-	switch rapid.IntRange(0, 9).Draw(t, "templatekind") {
+	switch rapid.IntRange(0, 11).Draw(t, "templatekind") {
+	case 10, 11:
+		return genTempChains(t)
 	case 0, 1:
 		return genNativeMath(t)
 	case 2, 3, 4:
